@@ -233,8 +233,12 @@ class W3World(World):
             # one aggregate names its delegation models after the delegation ids themselves (graph id == delegation
             # id; legal: the ids only have to be distinct among the models a broker combines)
             'named_after_delegation': rng.random() < 0.15,
+            # the aggregate-model object is kept between partitionings (as an aggregate manager would keep it)
+            'retain_arm': rng.random() < 0.5,
+            # generate_adms is given graph ids for only some of the delegation ids
+            'partial_guids': rng.random() < 0.2,
             'mix': {'send': 6, 'deliver': 10, 'duplicate': 2, 'drop': 2, 'resend': 3, 'offline': 3, 'comeback': 3,
-                    'snapshot': 2, 'rollback': 2, 'partition': 2, 'rewrite': 1},
+                    'snapshot': 2, 'rollback': 2, 'partition': 2, 'rewrite': 1, 'grow': 1.5, 'open_importer': 0.6},
             'step_cap': 80,
         }
 
@@ -325,6 +329,16 @@ class W3World(World):
         ams = sorted(self.ams)
         if op in ('partition', 'rewrite'):
             return {'am': rng.choice(ams)}
+        if op == 'grow':
+            am = rng.choice(ams)
+            self.grown = getattr(self, 'grown', 0) + 1
+            p = {'Name': 'grown%d' % self.grown, 'Type': 'Server', 'StitchNode': 'false', 'Site': 'S0'}
+            k = rng.random()
+            for kind in (['LabelDelegations'] if k < 0.3 else ['CapacityDelegations'] if k < 0.6 else list(DEL_PROPS)):
+                p[kind] = gen_delegations(rng, self.dels, kind, {}, None, allow_pool=False)
+            return {'am': am, 'nid': '%s-grown%d' % (am, self.grown), 'props': p}
+        if op == 'open_importer':
+            return {'logger': rng.random() < 0.7}
         if op == 'send':
             cand = [a for a in ams if self.ams[a]['online']]
             if not cand:
@@ -407,7 +421,37 @@ class W3World(World):
     # ---- C13
     def arm(self, am):
         from fim.graph.resources.networkx_arm import NetworkXARMGraph
+        if self.cfg.get('retain_arm'):
+            if not hasattr(self, '_arms'):
+                self._arms = {}
+            if am not in self._arms:
+                self._arms[am] = NetworkXARMGraph(graph=self.pg(self.ams[am]['arm_id']))
+            return self._arms[am]
         return NetworkXARMGraph(graph=self.pg(self.ams[am]['arm_id']))
+
+    def do_grow(self, s):
+        """the aggregate gains a (delegated) resource between two partitionings"""
+        am = s['am']
+        if am not in self.ams:
+            raise SkipStep()
+        self.pg(self.ams[am]['arm_id']).add_node(node_id=s['nid'], label='NetworkNode', props=dict(s['props']))
+        self.mutations += 1
+        return 'ok'
+
+    def do_open_importer(self, s):
+        """someone opens another importer on the shared store (with a logger or without): nothing stored changes"""
+        import logging
+        from fim.graph.networkx_property_graph import NetworkXGraphImporter
+        ids = [i['arm_id'] for i in self.ams.values()] + [b['cbm'].graph_id for b in self.brokers.values()]
+        pre = {g: self.state(g) for g in ids}
+        NetworkXGraphImporter(logger=logging.getLogger('simfim-w3') if s.get('logger') else None)
+        for g in ids:
+            if canon(self.state(g)) != canon(pre[g]):
+                prop, oracle = ('C14', 'cbm_untouched') if g.startswith('cbm-') else ('C13', 'arm_untouched')
+                self.flag(prop, oracle, {'symptom': 'importer_opened'},
+                          'opening another importer on the store changed model %s: %s' %
+                          (g, state_diff(self.state(g), pre[g])[:300]))
+        return 'ok'
 
     def partition(self, am, check=True):
         """generate_adms on the aggregate's ARM; returns {del id: adm graph id} (None if the call raised)"""
@@ -416,6 +460,8 @@ class W3World(World):
         guids = {d: 'adm-%s-%s-v%d' % (am, d, info['version']) for d in DEL_IDS}
         if self.cfg.get('named_after_delegation') and am == sorted(self.ams)[0]:
             guids = {d: d for d in DEL_IDS}
+        elif self.cfg.get('partial_guids'):
+            guids = {d: g for d, g in guids.items() if d == DEL_IDS[0]}
         pre = self.state(info['arm_id'])
         try:
             adms = self.arm(am).generate_adms(delegation_guids=guids)
